@@ -932,4 +932,74 @@ theorem elementsF_suffix : ∀ (f : Nat) (seq e : Bytes), Res.ok e ∈ elementsF
             rw [(current_ok_nonempty hcur (by simpa using hemp)).1]; exact List.suffix_refl _
           · exact (ih _ _ h).trans (containerNext_suffix hnext)
 
+/-! ### the remaining public accessors: `tlv()`, `total_len()`, `Display` / `Debug` -/
+
+theorem tlvOf_np (bs : Bytes) (h : bs.length < I32LIM) : NP (tlvOf bs) :=
+  NP.bind (tagOf_np bs) fun _ _ => NP.bind (valueOf_np bs h) fun _ _ => NP.ok _
+
+theorem totalLen_np (bs : Bytes) (h : bs.length < I32LIM) : NP (totalLen bs) := containerLen_np bs h
+
+/-- an element that `container()` enters has a container-start value -/
+theorem valueOf_of_containerOf {bs seq : Bytes} {v : TVal} (hv : valueOf bs = .ok v) (hs : containerOf bs = .ok seq) :
+    ∃ k, v = .cont k := by
+  unfold containerOf at hs
+  rcases Res.bind_eq_ok.mp hs with ⟨c, hc, h2⟩
+  split at h2
+  · rename_i hst
+    unfold valueOf at hv
+    simp only [hc, Res.ok_bind] at hv
+    rcases Res.bind_eq_ok.mp hv with ⟨s, _, h3⟩
+    cases hvt : c.vt <;> simp [hvt, ValueType.isContainerStart] at hst
+    rename_i k
+    simp only [hvt, Res.pure_eq, Res.ok.injEq] at h3
+    exact ⟨k, h3.symm⟩
+  · simp at h2
+
+theorem fmtSeq_np (f : Bytes → Res Unit) :
+    ∀ l : List (Res Bytes), (∀ r ∈ l, NP r) → (∀ e, Res.ok e ∈ l → NP (f e)) → NP (fmtSeq f l) := by
+  intro l
+  induction l with
+  | nil => intro _ _; exact NP.ok _
+  | cons r rest ih =>
+    intro h1 h2
+    simp only [fmtSeq]
+    apply NP.bind (h1 r (by simp)); intro e he
+    apply NP.bind (h2 e (by simp [he])); intro _ _
+    exact ih (fun r' hr' => h1 r' (by simp [hr'])) (fun e' he' => h2 e' (by simp [he']))
+
+/-- `Display` / `Debug` of an element: value or `fmt::Error`, never a panic (in particular the
+`unreachable!()` is unreachable), and the recursion is at most `len + 1` deep -/
+theorem fmtOf_np : ∀ (d : Nat) (bs : Bytes), bs.length < d → bs.length < I32LIM → NP (fmtOf d bs) := by
+  intro d
+  induction d with
+  | zero => intro bs h; omega
+  | succ d ih =>
+    intro bs hd hu
+    simp only [fmtOf]
+    apply NP.bind (tagOf_np _); intro t _
+    apply NP.bind (valueOf_np _ hu); intro v hv
+    split
+    · apply NP.bind (containerOf_np _); intro seq hseq
+      have hle := containerOf_le hseq
+      have hlt : seq.length < bs.length := by
+        unfold containerOf at hseq
+        rcases Res.bind_eq_ok.mp hseq with ⟨c, hc, h2⟩
+        split at h2
+        · exact nextEnter_lt (control_ok_ne_nil hc) h2
+        · simp at h2
+      have hu' : seq.length < I32LIM := by omega
+      obtain ⟨k, rfl⟩ := valueOf_of_containerOf hv hseq
+      apply NP.bind _ (fun _ _ => by simp only [TVal.vt]; exact NP.ok _)
+      apply fmtSeq_np _ _ (elements_item_np seq hu')
+      intro e he
+      obtain ⟨oks, tail, e1, e2, _, e4⟩ := elements_spec seq hu'
+      rw [e1, List.mem_append] at he
+      have hmem : e ∈ oks := by
+        rcases he with he | he
+        · rcases List.mem_map.mp he with ⟨a, ha, hh⟩; cases hh; exact ha
+        · rcases e2 with rfl | ⟨e', rfl⟩ <;> simp at he
+      have := e4 e hmem
+      exact ih e (by omega) (by omega)
+    · exact NP.ok _
+
 end Tlv
